@@ -37,6 +37,7 @@ def gen_spec(rng, max_groups=3, max_lrns=3, max_vals=2):
     groups = [gen_env_group(rng, i) for i in range(rng.randint(1, max_groups))]
     lrns = [gen_learner(rng, i) for i in range(rng.randint(1, max_lrns))]
     vals = [gen_evaluator(rng, i) for i in range(rng.randint(1, max_vals))]
+    for v in [v for v in vals if v["kind"] == "func"][1:]: v["kind"] = "rec"     # the bare function is one object: list it once
     spec = {"groups": groups, "lrns": lrns, "vals": vals, "seed": rng.choice([1, 7, 42]), "triples": "cross"}
     if rng.random() < .35:
         # explicit tuple list over (group-member index resolved at build time, learner, evaluator), objects shared in random patterns
